@@ -273,10 +273,128 @@ RANDOM_DRAWS = {"random.random", "random.choices", "random.randrange", "random.r
                 "random.sample", "random.gauss", "random.getrandbits", "random.betavariate", "random.expovariate", "random.triangular"}
 
 
+DRAW_METHODS = {x.split(".")[1] for x in RANDOM_DRAWS}
+
+
+def _own_generator(ctx, chk, rule, f):
+    """The other way to be reproducible: a generator object of the board's own, `rng = random.Random(seed)`, from which every
+    draw of the board construction is taken.  Returns True when this idiom is present (and has been judged: ok / violation /
+    undecided were reported), False when it is not the idiom (the module-level rule then applies)."""
+    cfg = ctx.cfg(f)
+    mk = [st for st in walk_no_nested_defs(f.node) if isinstance(st, ast.Assign) and isinstance(st.value, ast.Call) and call_name(st.value) in ("random.Random", "Random")
+          and len(st.targets) == 1 and isinstance(st.targets[0], ast.Name)]
+    if len(mk) != 1:
+        return False
+    a = mk[0]
+    X = a.targets[0].id
+    args = a.value.args
+    if not (len(args) == 1 and isinstance(args[0], ast.Name) and args[0].id in f.params and (args[0].id == f.params[0] or "seed" in args[0].id)
+            and not any(isinstance(n, ast.Name) and isinstance(n.ctx, ast.Store) and n.id == args[0].id for n in walk_no_nested_defs(f.node))):
+        chk.violation(rule, f.where(a), "the board's generator is created as `%s`, not from the seed parameter: the same parameters do not give the same board" % src(a.value),
+                      expected="random.Random(seed)", found=src(a.value), construct="gen_rnd_board generator seed")
+        return True
+    if not cfg.on_every_normal_path(a) or sum(1 for n in walk_no_nested_defs(f.node) if isinstance(n, ast.Name) and n.id == X and isinstance(n.ctx, ast.Store)) != 1:
+        chk.undecided(rule, f.where(a), "`%s` is created conditionally or re-assigned" % X)
+        return True
+    scope = ctx.cg.reachable([f])
+    # which parameter of which function carries the generator
+    carrier = {f.qual: {X}}
+    changed = True
+    bad = False
+    while changed:
+        changed = False
+        for g in scope:
+            names = carrier.get(g.qual, set())
+            for call, cs in ctx.cg.call_sites(g):
+                for h in cs:
+                    if h not in scope:
+                        continue
+                    hp = [p for p in h.params if p != "self"]
+                    for i, arg in enumerate(call.args):
+                        if isinstance(arg, ast.Name) and arg.id in names and i < len(hp) and hp[i] not in carrier.get(h.qual, set()):
+                            carrier.setdefault(h.qual, set()).add(hp[i])
+                            changed = True
+                    for k in call.keywords:
+                        if k.arg and isinstance(k.value, ast.Name) and k.value.id in names and k.arg not in carrier.get(h.qual, set()):
+                            carrier.setdefault(h.qual, set()).add(k.arg)
+                            changed = True
+    n = 0
+    for g in scope:
+        names = carrier.get(g.qual, set())
+        gcfg = ctx.cfg(g)
+        for c in walk_no_nested_defs(g.node):
+            if not isinstance(c, ast.Call):
+                continue
+            if call_name(c) in RANDOM_DRAWS or call_name(c) == "random.seed":
+                n += 1
+                bad = True
+                chk.violation(rule, g.where(c), "`%s` uses the module-level generator, which `%s = random.Random(seed)` does not seed: the board depends on the generator's previous state" % (src(c)[:60], X),
+                              expected="every draw from %s" % X, found=src(c)[:80], construct="%s module-level draw" % g.short)
+            elif isinstance(c.func, ast.Attribute) and c.func.attr in DRAW_METHODS and isinstance(c.func.value, ast.Name):
+                r = c.func.value.id
+                n += 1
+                if r in names:
+                    # the carrier name may be re-bound only by the `if rng is None: rng = random` fallback; every caller in the board
+                    # construction passes the generator, so the fallback is not taken there
+                    stores = [st for st in walk_no_nested_defs(g.node) if isinstance(st, ast.Assign) and any(isinstance(t, ast.Name) and t.id == r for t in st.targets)]
+                    if g is f and not (cfg.dominates(a, c) and cfg.stmt_of(c) is not a):
+                        bad = True
+                        chk.violation(rule, g.where(c), "draw `%s` before the generator exists" % src(c)[:60], expected="after %s = random.Random(seed)" % X, found=norm_stmt(cfg.stmt_of(c)),
+                                      construct="%s draw before generator" % g.short)
+                    elif g is not f and stores and not all(_none_fallback(st, r) for st in stores):
+                        chk.undecided(rule, g.where(c), "`%s` is re-bound in %s" % (r, g.short))
+                        bad = True
+                    elif g is not f and not _always_passed(ctx, scope, g, r, carrier):
+                        chk.undecided(rule, g.where(c), "not every call of %s in the board construction passes the generator as `%s`" % (g.short, r))
+                        bad = True
+                    else:
+                        chk.ok(rule, g.where(c), "draw `%s` is taken from the board's own generator (%s = random.Random(seed))" % (src(c)[:60], X))
+                else:
+                    chk.undecided(rule, g.where(c), "draw `%s`: `%s` is not known to be the board's generator" % (src(c)[:60], r))
+                    bad = True
+    if n < 4:
+        chk.undecided(rule, f.where(), "only %d random draws found" % n)
+    for g in ctx.prog.all_funcs((GEN, "stochastic_game_from_roborta_board.py")):
+        if g in scope:
+            continue
+        for c in walk_no_nested_defs(g.node):
+            if isinstance(c, ast.Call) and call_name(c).startswith("random."):
+                chk.violation(rule, g.where(c), "`%s` outside the seeded board construction" % src(c), expected="all randomness inside gen_rnd_board", found=src(c),
+                              construct="%s unseeded entropy" % g.short)
+    for c in ast.walk(ctx.prog.mod(GEN).tree):
+        if isinstance(c, ast.Call) and (call_name(c) == "random.SystemRandom" or (call_name(c) == "random.Random" and c is not a.value)):
+            chk.violation(rule, GEN, "`%s`: a second generator that the seed does not determine" % src(c), expected="one generator made from the seed", found=src(c), construct="generator separate Random")
+    return True
+
+
+def _none_fallback(st, r):
+    """`if r is None: r = random` (the module-level generator as the default of an optional parameter)"""
+    p = getattr(st, "parent", None)
+    return isinstance(p, ast.If) and isinstance(p.test, ast.Compare) and len(p.test.ops) == 1 and isinstance(p.test.ops[0], ast.Is) \
+        and isinstance(p.test.left, ast.Name) and p.test.left.id == r and isinstance(p.test.comparators[0], ast.Constant) and p.test.comparators[0].value is None \
+        and isinstance(st.value, ast.Name) and st.value.id == "random"
+
+
+def _always_passed(ctx, scope, g, r, carrier):
+    gp = [p for p in g.params if p != "self"]
+    if r not in gp:
+        return False
+    i = gp.index(r)
+    for h in scope:
+        for call, cs in ctx.cg.call_sites(h):
+            if g in cs:
+                arg = call.args[i] if i < len(call.args) else next((k.value for k in call.keywords if k.arg == r), None)
+                if not (isinstance(arg, ast.Name) and arg.id in carrier.get(h.qual, set())):
+                    return False
+    return True
+
+
 def r3_reproducible(ctx, chk, rule="C15.3"):
     f = ctx.func(GEN + "::gen_rnd_board")
     cfg = ctx.cfg(f)
     seeds = [c for c in walk_no_nested_defs(f.node) if isinstance(c, ast.Call) and call_name(c) == "random.seed"]
+    if not seeds and _own_generator(ctx, chk, rule, f):
+        return
     if len(seeds) != 1:
         chk.violation(rule, f.where(), "%d random.seed calls in gen_rnd_board" % len(seeds), expected="exactly one random.seed(seed)", found=len(seeds), construct="gen_rnd_board seed calls")
         return
@@ -519,6 +637,22 @@ def table_expr(sx, t, rows_src, cols_src, depth=0):
     return None, "`%s`" % show(t)[:80]
 
 
+def _is_generator(t):
+    """a random generator object: the module, random.Random(...), a conditional between such, or a variable (judged by rule 3)"""
+    if t == ("v", "random") or (t[0] == "call" and t[1] in ("random.Random", "Random")):
+        return True
+    if t[0] == "ite":
+        return _is_generator(t[2]) and _is_generator(t[3])
+    return t[0] == "v" and any(k in t[1] for k in ("rng", "rand", "gen", "prng"))
+
+
+def _module_form(t):
+    """Which generator object a draw is taken from does not change its distribution (rule 3 decides whether it is the seeded
+    one): `rng.random()` is read as `random.random()` for the value rules."""
+    from ..symx import subst
+    return subst(t, lambda x: ("call", "random." + x[2], x[3], x[4]) if x[0] == "mcall" and x[2] in DRAW_METHODS and _is_generator(x[1]) else None)
+
+
 def r45_shape_values(ctx, chk, rule4="C15.4", rule5="C15.5", rule6="C15.6"):
     f = ctx.func(GEN + "::gen_rnd_board")
     sx = SymX(ctx, f, inline_depth=2, no_inline=("get_random_moves",)).run()
@@ -534,7 +668,7 @@ def r45_shape_values(ctx, chk, rule4="C15.4", rule5="C15.5", rule6="C15.6"):
     for slot, what in ((1, "rewards"), (2, "loose_tiles")):
         verdict, val = table_expr(sx, ret[1][slot], rows_src, cols_src)
         if verdict == "ok":
-            val = deep_simp(val)
+            val = _module_form(deep_simp(val))
         if verdict == "ok":
             chk.ok(rule4, f.where(), "%s: `length` rows x `width` unconditional appends" % what)
             vals[what] = val
@@ -565,8 +699,14 @@ def r45_shape_values(ctx, chk, rule4="C15.4", rule5="C15.5", rule6="C15.6"):
                           construct="gen_rnd_board reward formula")
     # moves
     g = ctx.func(GEN + "::get_random_moves")
-    called = ret[1][0] == ("call", "get_random_moves", (length, width, ("v", "force_down")), ())
-    if not called:
+    r0 = ret[1][0]
+    called = r0 == ("call", "get_random_moves", (length, width, ("v", "force_down")), ())
+    if not called and r0[0] == "call" and r0[1] == "get_random_moves" and r0[2][:3] == (length, width, ("v", "force_down")) and \
+            all(_is_generator(a) for a in r0[2][3:]) and all(_is_generator(v) for _, v in r0[3]):
+        called = True           # the board's own generator handed on (which generator is used is judged by rule 3)
+    if not called and r0[0] == "call" and r0[1] == "get_random_moves" and r0[2][:3] == (length, width, ("v", "force_down")):
+        chk.undecided(rule4, f.where(), "get_random_moves receives further arguments that are not recognised: `%s`" % show(r0)[:120])
+    elif not called:
         chk.violation(rule4, f.where(), "gen_rnd_board does not return get_random_moves(length, width, force_down) as the arrows (returns `%s`)" % show(ret[1][0])[:80],
                       expected="get_random_moves(length, width, force_down)", found=show(ret[1][0])[:120], construct="gen_rnd_board moves")
     sg = SymX(ctx, g, inline_depth=1).run()
@@ -599,7 +739,7 @@ def r45_shape_values(ctx, chk, rule4="C15.4", rule5="C15.5", rule6="C15.6"):
     def row_of(flag):
         t = assume(u, gfd, flag)
         # bool(flag) / table[flag] after the flag is fixed
-        t = deep_simp(subst(t, lambda x: C(flag) if x == ("call", "bool", (("v", g.params[2]),), ()) else None))
+        t = _module_form(deep_simp(subst(t, lambda x: C(flag) if x == ("call", "bool", (("v", g.params[2]),), ()) else None)))
         if not (t[0] == "cat" and t[1] == acc and t[2][0] == "list" and len(t[2][1]) == 1):
             return None, None
         row = t[2][1][0]
@@ -609,7 +749,7 @@ def r45_shape_values(ctx, chk, rule4="C15.4", rule5="C15.5", rule6="C15.6"):
             row = row[1]
         sets = [e for e in L.effects if e[1] == "setitem" and e[2][0] == "idx" and e[2][2] == ("elem", L.id) and assume(e[0], gfd, flag) == TRUE]
         if sets and forced is None:
-            forced = (assume(sets[0][3], gfd, flag), assume(sets[0][4], gfd, flag))
+            forced = (_module_form(assume(sets[0][3], gfd, flag)), assume(sets[0][4], gfd, flag))
         return row, forced
 
     def population(row):
